@@ -31,7 +31,7 @@ LEVEL = "proof"
 ASSUMPTIONS = [
     "the interleaving model Model/ChanExpect.v records the ORDER OF APPENDS to the output buffers (interim / final-response chunks); that the bytes reach the wire in that order, once, contiguously is C04/C17's claim (the check still flags any socket.send made while another thread holds outbuf_lock: former finding F18, repaired by fix 8bcf05e)",
     "pre-emption only at the labelled operations of harness/chan_world (lock operations, socket calls, trigger pulls; attribute accesses in the 'attrs' granularity): sequential consistency, GIL-atomic attribute loads and stores",
-    "HTTPChannel.cancel() (server shutdown) and exceptions escaping _flush_some inside send_continue are not represented",
+    "HTTPChannel.cancel() (server shutdown) is not represented (since fix 48f7fa0 the flush inside send_continue goes through _flush_exception: a send error sets will_close -- the environment step CWillClose -- and no exception leaves send_continue)",
     "close_when_flushed is not reset in the model (handle_write turns it into will_close and closes the channel)",
     "the dispatcher runs service() of a channel once per add_task (C14)",
 ]
